@@ -41,7 +41,9 @@ class CacheLock:
             raise CacheException(f"Last updated {time_since_update} seconds ago.  Threshold is {self.time_threshold}")
 
         try:
+            # Creating the Lock object does not lock anything: it has to be acquired.
             self.cache_lock = portalocker.Lock(self.cache_lock_filename, timeout=1)
+            self.cache_lock.acquire()
         except portalocker.exceptions.LockException:
             raise CacheException(f"Could not lock cache using {self.cache_lock_filename}")
         pass
